@@ -29,6 +29,11 @@ CLAIMED = {
    note="Trusted: Coq kernel; ITModel.v as a hand-written mirror of of_it_decoding.c (validated by the per-prefix correspondence); well-formedness of the matrices the C builds is checked on every dumped matrix (proved for the construction under C05/C15); extraction + drivers. No axioms.",
    technique="Coq proof by invariant/induction over a hand-written model + extracted-model-vs-C correspondence after every prefix",
    ref="3/C04"),
+ "C05": dict(
+   text="Machine-checked proof (Coq) that the Gallina model of the matrix construction (Pchk.v: list initialisation, 'valid choice remains' scan, PRNG-driven retry loops with fuel, uneven fallback, extra-entry rule, staircase; built on the sparse-matrix model of C17 and on the PRNG function generated from of_rand.c, proved Park-Miller in C19) does not depend on the PRNG state found at entry for any seed in 1..2^31-2, hence not on role, process or earlier sessions; with a refused seed it provably does (Example). The model is compared entry by entry (plus extra-entries flag and PRNG state left behind) with the matrix of the compiled C for a parameter grid (k=1,2, N1=3 and N1=r, rate extremes, boundary seeds) x {encoder, decoder} x {fresh, after 1-2 other sessions}; all C matrices of one parameter set must coincide.",
+   note="Trusted: Coq kernel; Pchk.v as hand-written mirror of the C construction and, by transcription from memory, of RFC 5170 5.2-5.3 (RFC text unavailable offline); c2gallina for the PRNG; Flocq + stdlib real-number axioms (through the PRNG theorems); extraction, drivers.",
+   technique="Coq proof over a hand-written model using the translator-generated PRNG + extracted-model-vs-C matrix correspondence",
+   ref="3/C05"),
  "C07": dict(
    text="Exploration only: every generated life cycle of the three codecs (limits included: k up to 200/300, both APIs, callbacks, both decoder roles, early release) runs under ASan/UBSan with each application buffer in its own exact-size heap block, and every buffer handed to the library is compared before/after. No theorem: pointer-level memory safety of compiled C cannot be stated in a Gallina model without a C semantics (none is installed); the index-range/ownership ledger model of DESIGN 3/C07 has not been built.",
    note="Trusted: ASan/UBSan runtime (alignment and shift-base checks disabled, see tools/vlib.py), drv_dec.c.",
@@ -54,6 +59,11 @@ CLAIMED = {
    note="Trusted: Coq kernel + vm_compute; Kernels.v's modelling of a word access as an access to the bytes it covers (LP64 little-endian non-SSE path); alignment exists only on the C side of the correspondence; extraction + drivers. No axioms.",
    technique="Coq proof over hand-written loop-faithful models + extracted-model-vs-C correspondence under ASan",
    ref="3/C13"),
+ "C15": dict(
+   text="Machine-checked proof (Coq, no axioms) that for ANY parity-check matrix with duplicate-free in-range rows whose source columns all have even weight and whose repair part is the staircase, and any codeword over any abelian group of exponent 2 (symbols of any length), the last repair symbol is null. The hypotheses are evaluated on the matrix read from the C for every generated session whose claim is true (even N1 in {4,6,8}, rates on both sides of the extra-entry threshold); on the C the built last repair symbol must be all zero for random payloads and encoder/decoder must agree on the claim.",
+   note="Trusted: Coq kernel; that 'no extra entry' implies exactly N1 entries per source column for the C construction is checked per dumped matrix, not proved; drv_dec.c.",
+   technique="Coq proof (universal in matrix and symbol group) + hypothesis evaluation on C-built matrices + zero-symbol oracle",
+   ref="3/C15"),
  "C16": dict(
    text="Exploration only (codec 5 is not modelled in Coq yet): for every accepted (k, n-k) the dumped matrix is checked to be the d x l product single-parity matrix; every received subset of the small shapes and random subsets of all shapes are decoded through both APIs with finish: no wrong symbol, completion iff the checks determine the sources (independent GF(2) oracle), callbacks, read-only buffers, no leak after release.",
    note="Trusted: drv_dec.c, python oracles. The generic IT theorem (C04) applies to any well-formed matrix, but the instantiation to the 2D matrix has not been stated.",
